@@ -13,9 +13,10 @@ EXTENDS Integers, Sequences, FiniteSets, TLC, Json, CSV, IOUtils
 
 CONSTANTS MaxLen, Part     \* Part: "accept" | "trees"
 
-Syms == <<"{", "}", "[", "]", ":", ",", "q", "b", "a", "1", "0", "-", ".", "e", "T", "N", " ">>
+Syms == <<"{", "}", "[", "]", ":", ",", "q", "b", "a", "1", "0", "-", ".", "e", "T", "N", " ", "U", "V", "W">>
 NS == Len(Syms)
-\* q = double quote, b = backslash, T = true, N = null
+\* q = double quote, b = backslash, T = true, N = null,
+\* U = ud800 (high surrogate escape body), V = udc00 (low surrogate), W = u0041: after a backslash they form \uXXXX escapes
 
 Sy(s, i) == IF i <= Len(s) THEN Syms[s[i]] ELSE "$"      \* "$" = end of input
 
@@ -28,7 +29,7 @@ StrBody(s, i) ==        \* after the opening quote
   LET c == Sy(s, i) IN
   CASE c = "$" -> 0
     [] c = "q" -> i + 1
-    [] c = "b" -> (IF Sy(s, i + 1) \in {"q", "b", "T", "N"} THEN StrBody(s, i + 2) ELSE 0)   \* \" \\ \t(rue) \n(ull)
+    [] c = "b" -> (IF Sy(s, i + 1) \in {"q", "b", "T", "N", "U", "V", "W"} THEN StrBody(s, i + 2) ELSE 0)   \* \" \\ \t(rue) \n(ull) \uXXXX
     [] OTHER -> StrBody(s, i + 1)
 RECURSIVE Digits(_,_)
 Digits(s, i) == IF Sy(s, i) \in {"0", "1"} THEN Digits(s, i + 1) ELSE i
@@ -84,15 +85,21 @@ Representable(t) == LeavesOf(t) \cap Unrepresentable = {}
 
 VARIABLES c, ph
 vars == <<c, ph>>
-Init == ph = 0 /\ (IF Part = "accept" THEN c \in [n : 0..MaxLen, s : [1..MaxLen -> 1..NS]] ELSE c \in Trees2)
+\* string bodies: longer strings over the symbols that matter inside a string (escapes, surrogates)
+StrSyms == {8, 9, 10, 15, 18, 19, 20}     \* b a 1 T U V W
+Init == ph = 0 /\ (CASE Part = "accept" -> c \in [n : 0..MaxLen, s : [1..MaxLen -> 1..NS]]
+                      [] Part = "strbody" -> c \in [n : 0..MaxLen, s : [1..MaxLen -> StrSyms]]
+                      [] OTHER -> c \in Trees2)
 Judge == ph = 0 /\ ph' = 1 /\ UNCHANGED c
 Next == Judge
 Spec == Init /\ [][Next]_vars
 Str == [i \in 1..c.n |-> c.s[i]]
-Canon == Part = "accept" => \A i \in (c.n + 1)..MaxLen : c.s[i] = 1
+Canon == Part \in {"accept", "strbody"} => \A i \in (c.n + 1)..MaxLen : c.s[i] = (IF Part = "accept" THEN 1 ELSE 8)
+\* a string body is wrapped in quotes
+Doc == IF Part = "strbody" THEN <<7>> \o [i \in 1..c.n |-> c.s[i]] \o <<7>> ELSE [i \in 1..c.n |-> c.s[i]]
 \* sanity of the grammar itself: a document never ends inside a string or after a comma
 Sane == (ph = 1 /\ Part = "accept" /\ Canon /\ Accepts(Str)) => (c.n > 0 /\ Syms[c.s[c.n]] \notin {",", ":", "b", "-", ".", "e", "{", "["})
 Export == (ph = 1 /\ Canon) =>
-   CSVWrite("%1$s", <<ToJson(IF Part = "accept" THEN [k |-> "doc", s |-> [i \in 1..c.n |-> Syms[c.s[i]]], accept |-> Accepts(Str)]
+   CSVWrite("%1$s", <<ToJson(IF Part \in {"accept", "strbody"} THEN [k |-> "doc", s |-> [i \in 1..Len(Doc) |-> Syms[Doc[i]]], accept |-> Accepts(Doc)]
                             ELSE [k |-> "tree", t |-> c, representable |-> Representable(c)])>>, IOEnv.OUT)
 =============================================================================
